@@ -38,6 +38,17 @@ def main():
     rep.add_mc("offline machine: one value per sample, counter, stability under extension", r)
     if r["violated"]:
         rep.mc_violation("C01_offline", r)
+    # (B) specification -> code: offline behaviours (Parse, Extend*) simulated by TLC, replayed as evaluate() on every prefix
+    import behaviours
+    bres, behs = behaviours.simulate("C01_sim", F, ["x", "y"], num=(40 if quick else 400), depth=(6 if quick else 8), seed=core.seed(), mode="offline")
+    rep.add_mc("TLC simulation of Rtamt.tla (Parse/Extend): offline behaviours generated for replay", bres, exhaustive=False)
+    if bres["violated"]:
+        rep.mc_violation("C01_sim", bres)
+    bcases = behaviours.to_cases(behs, ["x", "y"])
+    btr = runner.run_cases(bcases)
+    bvs, bgen, bdist = core.validate("C01_sim_replay", btr)
+    rep.add_traces(btr, bvs, bgen, bdist, nontrivial_key=lambda c: c["objs"][0]["text"] + str(c["events"][-1].get("w")))
+    rep.extra["tlc_behaviours_replayed"] = len(bcases)
     rng = random.Random(core.seed() * 7919 + 1)
     n = 600 if core.tier() == "quick" else 20000
     cases = []
